@@ -157,14 +157,8 @@ Definition next_row (s : pst) (omit : bool) : res (pst * option irow) :=
          end
   end.
 
-(* _parse_block; fuel bounds the total number of rows read *)
+(* _parse_block; fuel bounds the nesting of calls (each row read consumes one unit) *)
 Fixpoint parse_block (fuel : nat) (s : pst) (bt : btype) (omit : bool) : res pst :=
-  match fuel with
-  | O => RErr OutOfFuel
-  | S f =>
-    parse_rows f s bt omit
-  end
-with parse_rows (fuel : nat) (s : pst) (bt : btype) (omit : bool) : res pst :=
   match fuel with
   | O => RErr OutOfFuel
   | S f =>
@@ -181,11 +175,11 @@ with parse_rows (fuel : nat) (s : pst) (bt : btype) (omit : bool) : res pst :=
           if omit || negb (i_inc row) then
             (* skipped: nested blocks are skipped too, without templating *)
             match i_kind row with
-            | KBeginFor => match parse_block f s1 BFor true with
+            | KBeginFor => match parse_block f (log s1 (EvEnter BFor true)) BFor true with
                            | ROk s2 => parse_block f s2 bt omit
                            | RErr e => RErr e
                            end
-            | KBeginBlock => match parse_block f s1 BBlock true with
+            | KBeginBlock => match parse_block f (log s1 (EvEnter BBlock true)) BBlock true with
                              | ROk s2 => parse_block f s2 bt omit
                              | RErr e => RErr e
                              end
@@ -199,39 +193,40 @@ with parse_rows (fuel : nat) (s : pst) (bt : btype) (omit : bool) : res pst :=
               | x :: rest =>
                 let idx := match rest with i :: _ => match i with [] => None | _ => Some i end | [] => None end in
                 let bookmark := p_pos s1 in
-                let s2 := log s1 (EvBegin (i_id row) true) in
                 (* for i, entry in enumerate(iterlist): rewind, bind, parse the body *)
-                let fix iterate (elems : list str) (n : nat) (st : pst) : res pst :=
-                    match elems with
-                    | [] => ROk st
-                    | e :: more =>
-                      let c1 := cset (p_ctx st) x (VS e) in
-                      let c2 := match idx with Some i => cset c1 i (VS (enc_dec n)) | None => c1 end in
-                      match parse_block f (mkP bookmark c2 (p_log st)) BFor false with
-                      | ROk st' => iterate more (S n) st'
-                      | RErr e' => RErr e'
-                      end
-                    end in
-                match iterate (i_iter row) 0 s2 with
+                let iterate :=
+                    fix iterate (elems : list str) (n : nat) (st : pst) : res pst :=
+                      match elems with
+                      | [] => ROk st
+                      | e :: more =>
+                        let c1 := cset (p_ctx st) x (VS e) in
+                        let c2 := match idx with Some i => cset c1 i (VS (enc_dec n)) | None => c1 end in
+                        match parse_block f (mkP bookmark c2 (EvEnter BFor false :: p_log st)) BFor false with
+                        | ROk st' => iterate more (S n) st'
+                        | RErr e' => RErr e'
+                        end
+                      end in
+                match iterate (i_iter row) O s1 with
                 | RErr e => RErr e
                 | ROk s3 =>
-                  (* remove_from_context: dict.pop *)
-                  match cpop (p_ctx s3) x with
+                  (* the group is registered, then remove_from_context: dict.pop *)
+                  let s4 := log s3 (EvEnd (i_id row)) in
+                  match cpop (p_ctx s4) x with
                   | None => RErr KeyErr
                   | Some c1 =>
                     match idx with
-                    | None => parse_block f (log (mkP (p_pos s3) c1 (p_log s3)) EvEnd) bt omit
+                    | None => parse_block f (mkP (p_pos s4) c1 (p_log s4)) bt omit
                     | Some i => match cpop c1 i with
                                 | None => RErr KeyErr
-                                | Some c2 => parse_block f (log (mkP (p_pos s3) c2 (p_log s3)) EvEnd) bt omit
+                                | Some c2 => parse_block f (mkP (p_pos s4) c2 (p_log s4)) bt omit
                                 end
                     end
                   end
                 end
               end
             | KBeginBlock =>
-              match parse_block f (log s1 (EvBegin (i_id row) false)) BBlock false with
-              | ROk s2 => parse_block f (log s2 EvEnd) bt omit
+              match parse_block f (log s1 (EvEnter BBlock false)) BBlock false with
+              | ROk s2 => parse_block f (log s2 (EvEnd (i_id row))) bt omit
               | RErr e => RErr e
               end
             | _ => parse_block f (log s1 (EvRow (i_id row) (i_text row))) bt omit
@@ -239,7 +234,8 @@ with parse_rows (fuel : nat) (s : pst) (bt : btype) (omit : bool) : res pst :=
         end
       end
     end
-  end
-(* decimal rendering of the loop index *)
-with enc_dec (n : nat) : str := [].
+  end.
 End Parse.
+
+Definition run_sheet (pol : undefined_policy) (rows : list raw) (c : ctx) : res pst :=
+  parse_block pol rows (S (S (length rows)) * S (length rows) * 8) (mkP 0 c []) BRoot false.
